@@ -59,7 +59,84 @@ func hasTag(tags []string, p string) bool {
 	return false
 }
 
+// mainReplay: govc replay <file.replay.json> re-examines one reported violation on the current tree: the
+// obligation is generated and discharged again, and where the function has a replay driver, the driver is run
+// on the real code with the recorded input. Exit 1 when the violation is still there, 0 when it is gone.
+func mainReplay(args []string) {
+	if len(args) < 2 {
+		fmt.Fprintln(os.Stderr, "usage: govc replay <file.replay.json>")
+		os.Exit(2)
+	}
+	data, err := os.ReadFile(args[1])
+	if err != nil {
+		fmt.Fprintln(os.Stderr, err)
+		os.Exit(2)
+	}
+	var rep map[string]any
+	if err := json.Unmarshal(data, &rep); err != nil {
+		fmt.Fprintln(os.Stderr, "not a replay file:", err)
+		os.Exit(2)
+	}
+	fn, _ := rep["function"].(string)
+	name, _ := rep["obligation"].(string)
+	prop, _ := rep["property"].(string)
+	fmt.Printf("replay of %s (property %s) in %s\n  clause: %v\n  recorded answer: %v by %v\n", name, prop, fn, rep["clause"], rep["answer"], rep["solver"])
+	if out, ok := rep["solver_output"].(string); ok && out != "" {
+		fmt.Printf("  recorded solver output: %s\n", out)
+	}
+	still := false
+	P, err := LoadProgram(repoDir)
+	must(err)
+	S, err := loadSpecs()
+	must(err)
+	if P.Funcs[fn] == nil {
+		fmt.Printf("  the function %s no longer exists\n", fn)
+	} else {
+		r := VerifyFunction(P, S, fn)
+		if r.Err != "" {
+			fmt.Printf("  the contract of %s no longer fits the code: %s\n", fn, oneLine(r.Err))
+		}
+		var sel []*Obligation
+		for _, o := range r.Obls {
+			if o.Name == name {
+				sel = append(sel, o)
+			}
+		}
+		tmp, _ := os.MkdirTemp("", "govc-replay")
+		defer os.RemoveAll(tmp)
+		d := &Discharger{Dir: tmp, Timeout: 60, Workers: 4}
+		d.Run(sel)
+		if len(sel) == 0 {
+			fmt.Printf("  no obligation of that name is generated now\n")
+		}
+		for _, o := range sel {
+			fmt.Printf("  now: %s %s (%s) %s\n", o.Name, o.Res.Answer, o.Res.Solver, o.Src)
+			if o.Res.Answer != "unsat" {
+				still = true
+			}
+		}
+	}
+	if drv := replayDriverFor(fn); drv != "" {
+		tmp, _ := os.MkdirTemp("", "govc-replay")
+		defer os.RemoveAll(tmp)
+		ok, out := runReplayDriverOnce(drv, filepath.Join(tmp, "replay.json"), rep)
+		fmt.Printf("  driver %s on the real code: %s\n", filepath.Base(drv), lastLine(out))
+		if ok {
+			still = true
+		}
+	}
+	if still {
+		fmt.Printf("VIOLATION property=%s replay=%s\n", prop, args[1])
+		os.Exit(1)
+	}
+	fmt.Println("not reproduced on the current tree")
+	os.Exit(0)
+}
+
 func mainCheck(args []string) {
+	if len(args) > 0 && args[0] == "replay" {
+		mainReplay(args)
+	}
 	if len(args) == 0 || args[0] != "check" {
 		fmt.Fprintln(os.Stderr, "unknown command")
 		os.Exit(2)
